@@ -317,6 +317,11 @@ class USBStreamOutEndpoint(Elaboratable):
         # Stores whether we're in the middle of a transfer.
         transfer_active = Signal()
 
+        # Stores whether the packet we've buffered filled a whole max-size packet; and whether
+        # we've buffered any data at all for the current transaction.
+        packet_is_full  = Signal()
+        packet_is_empty = Signal()
+
         #
         # Receiver logic.
         #
@@ -401,13 +406,23 @@ class USBStreamOutEndpoint(Elaboratable):
             fifo.read_commit  .eq(1)
         ]
 
+        # Each token starts a new transaction, for which we haven't buffered anything yet.
+        with m.If(tokenizer.new_token):
+            m.d.usb += packet_is_empty.eq(1)
+
         # Count bytes in packet.
         with m.If(fifo.write_en):
             m.d.usb += rx_cnt.eq(rx_cnt + 1)
+            m.d.usb += packet_is_empty.eq(0)
 
-            # Set the transfer active flag depending on whether this is a full packet.
+            # Remember whether this is a full packet; we'll only act on that once the packet is committed.
             with m.If(rx_last):
-                m.d.usb += transfer_active.eq(full_packet)
+                m.d.usb += packet_is_full.eq(full_packet)
+
+        # Only a packet we actually keep can continue (full packet) or end (short packet) a transfer;
+        # packets that are discarded or skipped must leave the transfer state untouched.
+        with m.If(fifo.write_commit & ~packet_is_empty):
+            m.d.usb += transfer_active.eq(packet_is_full)
 
         # We'll set the overflow flag if we're receiving data we don't have room for.
         with m.If(data_is_lost):
@@ -426,6 +441,10 @@ class USBStreamOutEndpoint(Elaboratable):
         # We'll toggle our DATA PID each time we issue an ACK to the host [USB 2.0: 8.6.2].
         with m.If(data_response_requested & data_accepted):
             m.d.usb += expected_data_toggle.eq(~expected_data_toggle)
+
+            # A zero-length packet has no byte we could mark as last; but it still ends the transfer.
+            with m.If(packet_is_empty):
+                m.d.usb += transfer_active.eq(0)
 
         # If there has been a ClearFeature(ENDPOINT_HALT) request address to this endpoint...
         clear_endpoint_halt = \
